@@ -276,6 +276,7 @@ def r13(F, lsp=False, rid="R13"):
     counts = {}
     seen_keys = set()
     from .. import flatten
+    pending = []
     table_used = {}        # (owner, kind, detail) -> reviewed slots used; the table counts only the sites no idiom discharged
     flat_ctx = {}
 
@@ -356,14 +357,17 @@ def r13(F, lsp=False, rid="R13"):
                         alts.append(("precond", panics_IDX))
                     elif kind == "precond" and detail == panics_IDX:
                         alts.append(("assert", "BoundsCheck()"))
-                    for holder, (kind2, detail2) in [(h_, a_) for h_ in dict.fromkeys([n] + own) for a_ in alts]:
-                        tb = (holder, kind2, detail2)
-                        if (holder, kind2, detail2, table_used.get(tb, 0)) in REVIEWED:
-                            how = REVIEWED[(holder, kind2, detail2, table_used.get(tb, 0))]
-                            if holder != n:
-                                how = (how[0], how[1] + " (entry of %s, whose code this is)" % holder.split("::")[-1])
+                    # the function's own entries first; what they do not cover waits until every function has used its own
+                    # entries and may then take a slot its owner has left (a block moved out of the owner took its site along)
+                    for kind2, detail2 in alts:
+                        tb = (n, kind2, detail2)
+                        if (n, kind2, detail2, table_used.get(tb, 0)) in REVIEWED:
+                            how = REVIEWED[(n, kind2, detail2, table_used.get(tb, 0))]
                             table_used[tb] = table_used.get(tb, 0) + 1
                             break
+                    if how is None and own:
+                        pending.append((key, fn.where(b), n, own, alts, kind, detail, msg))
+                        continue
             if how is not None:
                 counts[how[0]] = counts.get(how[0], 0) + 1
                 r.inst(key, fn.where(b), True, "%s: %s" % how, nontrivial=how[0] != "usize-counter")
@@ -371,6 +375,22 @@ def r13(F, lsp=False, rid="R13"):
                 r.inst(key, fn.where(b), False,
                        "reachable panic site: %s %s%s in %s is neither guarded nor reviewed: some input can crash the %s" % (
                            kind, detail, " (\"%s\")" % msg if msg else "", n, "server" if lsp else "compiler"))
+    for key, where, n, own, alts, kind, detail, msg in pending:
+        how = None
+        for holder, (kind2, detail2) in [(h_, a_) for h_ in own for a_ in alts]:
+            tb = (holder, kind2, detail2)
+            if (holder, kind2, detail2, table_used.get(tb, 0)) in REVIEWED:
+                how = REVIEWED[(holder, kind2, detail2, table_used.get(tb, 0))]
+                how = (how[0], how[1] + " (entry of %s, whose code this is)" % holder.split("::")[-1])
+                table_used[tb] = table_used.get(tb, 0) + 1
+                break
+        if how is not None:
+            counts[how[0]] = counts.get(how[0], 0) + 1
+            r.inst(key, where, True, "%s: %s" % how)
+        else:
+            r.inst(key, where, False,
+                   "reachable panic site: %s %s%s in %s is neither guarded nor reviewed: some input can crash the %s" % (
+                       kind, detail, " (\"%s\")" % msg if msg else "", n, "server" if lsp else "compiler"))
 
     r.note("discharge classes: %s" % sorted(counts.items()))
     return r
@@ -425,6 +445,32 @@ def r80(F):
                     ok = ok and util.must_pass(fn, tt, errs, exits=cfg.exits(fn)) and b not in cfg.reachable(fn, tt)
             r.inst("op_fcall->fcall_impl", fn.where(b), ok, "too many / too few arguments are errors before the call" if ok else "op_fcall calls the function without comparing the argument count with its arity")
             continue
+        if "::{closure" in n:
+            # the per-element code sits in a closure (iterator pipeline): the check belongs to the enclosing hook, before the
+            # closure is built; the values pushed per call are those the closure pushes before the call
+            pn = n[:n.index("::{closure")]
+            need(pn in F.fns, "closure %s has no enclosing function in the facts" % n)
+            pf = F.fns[pn]
+            made = [bb for bb, j, pl, rv, m in pf.assigns() if rv["k"] == "agg" and rv.get("adt") == "{closure}" and rv.get("closure") == n]
+            need(made, "closure %s is not built in %s" % (n, pn))
+            pchecks = [(cb, ct) for cb, ct in pf.calls() if callee(ct) == chk_name and all(cfg.dominates(pf, cb, mb) for mb in made)]
+            keyc = "%s::%s->fcall_impl" % (pn.split("::")[-1], short)
+            if not pchecks:
+                r.inst(keyc, fn.where(b), False,
+                       "the callback is called without an arity check: a function with another number of parameters pops values that are not its own "
+                       "(`map(func(a, b) => a, [1])` hits unreachable!())")
+                continue
+            cb, ct = max(pchecks, key=lambda x: TR.order_key(pf).get(x[0], 0))
+            expected = ct["args"][1].get("int")
+            pushes = [pb for pb, pt in fn.calls() if callee(pt) == "alloc::vec::Vec::push" and cfg.dominates(fn, pb, b) and
+                      "alloc::vec::Vec<(alloc::rc::Rc<ucglib::build::opcode::Value>" in fn.local_ty(op_local(pt["args"][0]) or 0)]
+            ees = util.err_edges(pf, ct["dest"]["l"])
+            leaves = bool(ees) and all(mb not in cfg.reachable(pf, e) for e in ees for mb in made)
+            ok = chk_ok and expected is not None and int(expected) == len(pushes) and leaves
+            r.inst(keyc, fn.where(b), ok,
+                   "arity %s checked in the hook before the closure is built, %d values pushed per call" % (expected, len(pushes)) if ok else
+                   "arity check expects %s parameter(s) but %d values are pushed before the call (or its error does not leave the hook)" % (expected, len(pushes)))
+            continue
         # hooks: dominated by check_callback_arity(f, n) with n = number of values pushed per iteration
         o = Origins(fn)
         checks = [(cb, ct) for cb, ct in fn.calls() if callee(ct) == chk_name and cfg.dominates(fn, cb, b)]
@@ -474,14 +520,36 @@ def r82(F):
     COMP = "ucglib::build::opcode::Composite"
     MERGE = VM + "merge_field_into_tuple"
     n = 0
-    for name, fn in sorted(F.fns.items()):
-        if fn.derived:
+    from .. import flatten
+    work = []
+    for name, fn0 in sorted(F.fns.items()):
+        if fn0.derived:
             continue
-        aggs = [(b, rv) for b, j, pl, rv, m in fn.assigns() if rv["k"] == "agg" and rv.get("adt") == COMP]
-        if not aggs:
+        aggs0 = [(b, rv) for b, j, pl, rv, m in fn0.assigns() if rv["k"] == "agg" and rv.get("adt") == COMP]
+        if not aggs0:
             continue
-        o = Origins(fn)
-        for b, rv in aggs:
+        # a private helper that receives the two vectors from its only caller is looked at where it is spliced into that caller
+        c = flatten.sole_caller(F, name)
+        params_in = any(op_local(rv["ops"][k]) is not None and any(1 <= x <= fn0.nargs for x in util.feeders_of(fn0, op_local(rv["ops"][k])))
+                        for b, rv in aggs0 for k in (0, 1))
+        if c is not None and params_in:
+            fl = flatten.flat(F, c)
+            offs = flatten.splice_offsets(fl, name)
+            if offs:
+                for off in offs[:1]:
+                    for b, rv in aggs0:
+                        rv2 = [st[2] for st in fl.blocks[off + b]["stmts"] if st[0] == "assign" and st[2]["k"] == "agg" and st[2].get("adt") == COMP]
+                        if rv2:
+                            work.append((name, fl, off + b, rv2[0]))
+                continue
+        for b, rv in aggs0:
+            work.append((name, fn0, b, rv))
+    o_cache = {}
+    for name, fn, b, rv in work:
+        if id(fn) not in o_cache:
+            o_cache[id(fn)] = Origins(fn)
+        o = o_cache[id(fn)]
+        if True:
             n += 1
             la, lb = op_local(rv["ops"][0]), op_local(rv["ops"][1])
             def vec_locals(l):
@@ -846,6 +914,23 @@ def r78(F):
     cg = callgraph.get(F)
     callers = cg.callers("ucglib::build::opcode::pointer::OpPointer::jump")
     allowed = {VM + "op_jump", VM + "op_func", VM + "op_module", VM + "op_copy"}
+    # a piece split off one of these handlers (a private helper whose only caller is the handler) is still that handler
+    from .. import flatten
+
+    def home(c):
+        cur = c
+        for _ in range(3):
+            if cur in allowed:
+                return cur
+            if "::{closure" in cur:
+                cur = cur[:cur.index("::{closure")]
+                continue
+            up = flatten.sole_caller(F, cur)
+            if up is None:
+                break
+            cur = up
+        return cur
+    callers = sorted({home(c) for c in callers})
     ok = set(callers) <= allowed
     r.inst("OpPointer::jump:callers", "src/build/opcode", ok, "called only by %s" % sorted(x.split("::")[-1] for x in callers) if ok else "OpPointer::jump called from %s" % sorted(set(callers) - allowed))
     for h in ("op_func", "op_module"):
